@@ -45,7 +45,8 @@ Inductive cont :=
 | KCollect (tmpl : term) (cid : Z)                                   (* FindAll's inner continuation *)
 | KBag (witness : term) (setof : bool) (inst : term) (s : Z) (k : cont)  (* collectionOf's continuation *)
 | KRetractDel (idx : nat) (rid uid : Z) (k : cont)                   (* Retract's delete-then-continue *)
-| KCallNth (cnt : Z) (nth : term) (pid : Z) (k : cont).
+| KCallNth (cnt : Z) (nth : term) (pid : Z) (k : cont)
+| KCatchExit (pid : Z) (k : cont).                                  (* Catch: the goal has exited *)
 
 Inductive thunk :=
 | ThClause (c : clause) (args : list term) (k : cont) (e : env) (pid : Z)   (* clauses.call ks[i] *)
@@ -66,13 +67,15 @@ Record promise := mkP {
   p_delayed : list thunk;
   p_ok : bool;
   p_err : option merr;
-  p_cutp : option Z;
+  p_cutp : option Z;       (* cutParent *)
+  p_cutdone : option Z;    (* cutDone: the parent this promise has already cut to *)
   p_repeat : bool;
-  p_recover : option handler
+  p_recover : option handler;
+  p_exited : option Z      (* exited: id of the catching promise whose goal has exited *)
 }.
 
-Definition PBool (b : bool) : promise := mkP 0 [] b None None false None.
-Definition PErr (e : merr) : promise := mkP 0 [] false (Some e) None false None.
+Definition PBool (b : bool) : promise := mkP 0 [] b None None None false None None.
+Definition PErr (e : merr) : promise := mkP 0 [] false (Some e) None None false None None.
 
 (** ---- machine state -------------------------------------------------------------- *)
 
@@ -139,12 +142,15 @@ Definition renamed_copy (e : env) (t : term) (st : state) : term * state :=
 
 (** ---- promise stack operations (promise.go) -------------------------------------------- *)
 
-(** popUntil: pop until the popped promise is [c] (inclusive); if [c] is not on
-    the stack, everything is popped *)
+(** popUntil: pop until the popped promise is [c], or a promise that has
+    already cut to [c] and stands in its place (inclusive); if there is none,
+    everything is popped *)
+Definition stands_for (c : Z) (p : promise) : bool :=
+  Z.eqb (p_id p) c || match p_cutdone p with Some d => Z.eqb d c | None => false end.
 Fixpoint pop_until (c : Z) (stack : list promise) : list promise :=
   match stack with
   | [] => []
-  | p :: rest => if Z.eqb (p_id p) c then rest else pop_until c rest
+  | p :: rest => if stands_for c p then rest else pop_until c rest
   end.
 
 Definition tuple_t (args : list term) : term :=
@@ -275,12 +281,12 @@ Definition eval_term (e : env) (t : term) : num + merr :=
 Inductive fres := FTrue | FFalse | FError (e : merr) | FOutOfFuel.
 
 Definition delay (ths : list thunk) (st : state) : promise * state :=
-  let '(id, st') := fresh_id st in (mkP id ths false None None false None, st').
+  let '(id, st') := fresh_id st in (mkP id ths false None None None false None None, st').
 
 (** clauses.call *)
 Definition clauses_call (cs : list clause) (args : list term) (k : cont) (e : env) (st : state) : promise * state :=
   let '(id, st') := fresh_id st in
-  (mkP id (map (fun c => ThClause c args k e id) cs) false None None false None, st').
+  (mkP id (map (fun c => ThClause c args k e id) cs) false None None None false None None, st').
 
 Definition callable_pi (e : env) (t : term) : (string * list term) + merr :=
   match resolve e t with
@@ -351,12 +357,13 @@ Fixpoint force (fuel : nat) (stack : list promise) (st : state) {struct fuel} : 
               match p_delayed p with
               | [] =>
                   match p_err p with
-                  | Some err => recover f err rest st
+                  | Some err => recover f err [] rest st
                   | None => if p_ok p then (FTrue, st) else force f rest st
                   end
               | th :: ths =>
                   let rest' := match p_cutp p with Some c => pop_until c rest | None => rest end in
-                  let p' := mkP (p_id p) (if p_repeat p then th :: ths else ths) (p_ok p) (p_err p) None (p_repeat p) (p_recover p) in
+                  let p' := mkP (p_id p) (if p_repeat p then th :: ths else ths) (p_ok p) (p_err p) None
+                                (match p_cutp p with Some c => Some c | None => p_cutdone p end) (p_repeat p) (p_recover p) (p_exited p) in
                   let '(q, st') := run_thunk f th st in
                   force f (q :: p' :: rest') st'
               end
@@ -365,7 +372,7 @@ Fixpoint force (fuel : nat) (stack : list promise) (st : state) {struct fuel} : 
   end
 
 (** promiseStack.recover *)
-with recover (fuel : nat) (err : merr) (stack : list promise) (st : state) {struct fuel} : fres * state :=
+with recover (fuel : nat) (err : merr) (exited : list Z) (stack : list promise) (st : state) {struct fuel} : fres * state :=
   match fuel with
   | O => (FOutOfFuel, st)
   | S f =>
@@ -373,8 +380,11 @@ with recover (fuel : nat) (err : merr) (stack : list promise) (st : state) {stru
       | EFuel, _ => (FOutOfFuel, st)
       | _, [] => (FError err, st)
       | _, p :: rest =>
-          match p_recover p with
-          | None => recover f err rest st
+          match p_exited p with
+          | Some x => recover f err (x :: exited) rest st
+          | None =>
+          match (if existsb (Z.eqb (p_id p)) exited then None else p_recover p) with
+          | None => recover f err exited rest st
           | Some (HCatch catcher recovery k e) =>
               let ball := match err with
                           | EBall t => t
@@ -384,8 +394,9 @@ with recover (fuel : nat) (err : merr) (stack : list promise) (st : state) {stru
                           end in
               match unify e catcher ball with
               | UOk e' => let '(q, st') := call_goal f recovery k e' st in force f (q :: rest) st'
-              | _ => recover f err rest st
+              | _ => recover f err exited rest st
               end
+          end
           end
       end
   end
@@ -518,6 +529,9 @@ with apply_cont (fuel : nat) (k : cont) (e : env) (st : state) {struct fuel} : p
               apply_cont f k' e (put_deleted st rid (S deleted))
           end
       | KCallNth cnt nth pid k' => (PErr (EPanic "call_nth unmodelled"), st)
+      | KCatchExit pid k' =>
+          let '(id, st') := fresh_id st in
+          (mkP id [ThApply k' e] false None None None false None (Some pid), st')
       end
   end
 
@@ -574,7 +588,7 @@ with exec (fuel : nat) (pc : list instr) (vs : list Z) (k : cont) (args : list t
           | IExit => apply_cont f k e st
           | ICut =>
               let '(id, st') := fresh_id st in
-              (mkP id [ThExec pc' vs k args astack e cutp] false None (Some cutp) false None, st')
+              (mkP id [ThExec pc' vs k args astack e cutp] false None (Some cutp) None false None None, st')
           end
       end
   end
@@ -626,7 +640,7 @@ with builtin (fuel : nat) (name : string) (args : list term) (k : cont) (e : env
       | "\+", [g] => delay [ThNegate g k e] st
       | "repeat", [] =>
           let '(id, st') := fresh_id st in
-          (mkP id [ThApply k e] false None None true None, st')
+          (mkP id [ThApply k e] false None None None true None None, st')
       | "throw", [b] =>
           match resolve e b with
           | Var _ => (PErr inst_err, st)
@@ -634,7 +648,7 @@ with builtin (fuel : nat) (name : string) (args : list term) (k : cont) (e : env
           end
       | "catch", [g; catcher; recovery] =>
           let '(id, st') := fresh_id st in
-          (mkP id [ThCall g k e] false None None false (Some (HCatch catcher recovery k e)), st')
+          (mkP id [ThCall g (KCatchExit id k) e] false None None None false (Some (HCatch catcher recovery k e)) None, st')
       | "findall", [tmpl; g; inst] =>
           match check_partial_list e inst with
           | Some err => (PErr err, st)
